@@ -26,7 +26,7 @@ GNext ==
   \/ (MakeCheck /\ pc = "idle" /\ NMakes(hist) < MaxEdits + 2 /\ ~TwoMakes(hist)
         /\ hist' = Log(Append(hist, [op |-> "make"])))
   \/ ((Ack \/ LoadEnv \/ EnvOpen \/ EnvClose \/ Check \/ Touch \/ Script \/ DepsOpen \/ DepsClose \/ DepsRename \/ SkipDeps
-        \/ CacheOpen \/ CacheClose \/ MkOpen \/ MkClose) /\ hist' = Log(hist))
+        \/ CacheOpen \/ CacheClose \/ MkOpen \/ MkClose \/ MkRename) /\ hist' = Log(hist))
 GSpec == GInit /\ [][GNext]_<<vars, hist>>
 \* a finished history: all edits used, the last step was a completed run
 Emit == (edits = MaxEdits /\ pc = "idle" /\ hist # <<>> /\ hist[Len(hist)].op = "result")
